@@ -1380,6 +1380,10 @@ class StateMachineAccessPoint(Client, ServiceAccessPoint):
 
         elif self.dccEnableDisable == 'disable':
             if _debug: StateMachineAccessPoint._debug("    - communications disabled")
+
+            # a confirmed request has to end somehow, nothing will come back
+            if isinstance(apdu, ConfirmedRequestPDU):
+                raise RuntimeError("communications disabled")
             return
 
         elif self.dccEnableDisable == 'disableInitiation':
@@ -1389,6 +1393,10 @@ class StateMachineAccessPoint(Client, ServiceAccessPoint):
                 if _debug: StateMachineAccessPoint._debug("    - continue with I-Am")
             else:
                 if _debug: StateMachineAccessPoint._debug("    - not an I-Am")
+
+                # a confirmed request has to end somehow, nothing will come back
+                if isinstance(apdu, ConfirmedRequestPDU):
+                    raise RuntimeError("initiation disabled")
                 return
 
         if isinstance(apdu, UnconfirmedRequestPDU):
